@@ -6,7 +6,8 @@
 (* NC_NOERR, hence over all histories (nb_run_inv).  Writes to pairwise disjoint byte ranges commute; for ANY sorted *)
 (* permutation qsort returns and ANY partition into groups, the single (file type, buffer type) pair of a wait moves *)
 (* exactly the bytes of the blocking calls when no file byte is addressed twice; hence wait refines blocking execution for *)
-(* puts (any argument form, any order).  FALSE of the faithful model, refuted by a witness replayed on the library *)
+(* puts (any argument form, any order).  The model carries BOTH variants of extract_reqs (argument fx; the check reads the *)
+(* variant from the sources as built).  FALSE of the snapshot variant (fx = false), refuted by a witness replayed on the library *)
 (* (findings): reads completed together that overlap (F2), statuses / unnamed requests under the "same as ALL" *)
 (* shortcuts (F3), a failed wait is not without effect (numrecs after a wait, F1, was repaired in /repo and is now proved in full); *)
 (* each comes with the partial theorem that does hold. *)
@@ -51,17 +52,17 @@ Print Assumptions C02_queue_inv_cancel.
 
 Theorem C02_queue_inv_wait :
   forall (sr : list areq -> list areq) (ss : list seg -> list seg) 
-           (st : nbstate) (a : waitargs) (file : disk),
+           (fx : bool) (st : nbstate) (a : waitargs) (file : disk),
          nb_inv_full st ->
-         wr_rc (fst (wait_one sr ss st a file)) = NC_NOERR ->
-         nb_inv_full (wr_st (fst (wait_one sr ss st a file))).
+         wr_rc (fst (wait_one sr ss fx st a file)) = NC_NOERR ->
+         nb_inv_full (wr_st (fst (wait_one sr ss fx st a file))).
 Proof. exact @wait_one_preserves_inv. Qed.
 Print Assumptions C02_queue_inv_wait.
 
 Theorem C02_queue_inv_histories :
   forall (sr : list areq -> list areq) (ss : list seg -> list seg) 
-           (ops : list nbop) (sf : nbstate * disk),
-         nb_inv_full (fst sf) -> run_ok sr ss sf ops -> nb_inv_full (fst (nb_run sr ss sf ops)).
+           (fx : bool) (ops : list nbop) (sf : nbstate * disk),
+         nb_inv_full (fst sf) -> run_ok sr ss fx sf ops -> nb_inv_full (fst (nb_run sr ss fx sf ops)).
 Proof. exact @nb_run_inv. Qed.
 Print Assumptions C02_queue_inv_histories.
 
@@ -97,13 +98,15 @@ Print Assumptions C02_enqueue_inv.
 
 Theorem C02_wait_leads_kept :
   forall (sr : list areq -> list areq) (ss : list seg -> list seg) 
-           (st : nbstate) (a : waitargs) (file : disk),
+           (fx : bool) (st : nbstate) (a : waitargs) (file : disk),
          nb_inv st ->
-         wr_rc (fst (wait_one sr ss st a file)) = NC_NOERR ->
-         put_lead (wr_st (fst (wait_one sr ss st a file))) =
-         kept (put_lead (ex_st (extract_reqs st (wa_n a) (wa_ids a) (wa_has_stat a) (wa_stat0 a)))) /\
-         get_lead (wr_st (fst (wait_one sr ss st a file))) =
-         kept (get_lead (ex_st (extract_reqs st (wa_n a) (wa_ids a) (wa_has_stat a) (wa_stat0 a)))).
+         wr_rc (fst (wait_one sr ss fx st a file)) = NC_NOERR ->
+         put_lead (wr_st (fst (wait_one sr ss fx st a file))) =
+         kept
+           (put_lead (ex_st (extract_reqs fx st (wa_n a) (wa_ids a) (wa_has_stat a) (wa_stat0 a)))) /\
+         get_lead (wr_st (fst (wait_one sr ss fx st a file))) =
+         kept
+           (get_lead (ex_st (extract_reqs fx st (wa_n a) (wa_ids a) (wa_has_stat a) (wa_stat0 a)))).
 Proof. exact @wait_one_leads. Qed.
 Print Assumptions C02_wait_leads_kept.
 
@@ -280,93 +283,94 @@ Proof. exact @isort_sorter_ok. Qed.
 Print Assumptions C02_insertion_sort_is_a_qsort.
 
 Theorem C02_extracted_requests_are_the_flagged_slices :
-  forall (st : nbstate) (n : Z) (ids : list Z) (hs : bool) (stat0 : list Z),
+  forall (fx : bool) (st : nbstate) (n : Z) (ids : list Z) (hs : bool) (stat0 : list Z),
          nb_inv st ->
-         ex_err (extract_reqs st n ids hs stat0) = NC_NOERR ->
+         ex_err (extract_reqs fx st n ids hs stat0) = NC_NOERR ->
          Forall areq_wf
-           (map (annotate (put_lead (ex_st (extract_reqs st n ids hs stat0))))
-              (ex_put (extract_reqs st n ids hs stat0))) /\
+           (map (annotate (put_lead (ex_st (extract_reqs fx st n ids hs stat0))))
+              (ex_put (extract_reqs fx st n ids hs stat0))) /\
          Permutation
            (flat_map areq_pairs
-              (map (annotate (put_lead (ex_st (extract_reqs st n ids hs stat0))))
-                 (ex_put (extract_reqs st n ids hs stat0))))
-           (flat_map lead_pairs (flagged (put_lead (ex_st (extract_reqs st n ids hs stat0))))).
+              (map (annotate (put_lead (ex_st (extract_reqs fx st n ids hs stat0))))
+                 (ex_put (extract_reqs fx st n ids hs stat0))))
+           (flat_map lead_pairs (flagged (put_lead (ex_st (extract_reqs fx st n ids hs stat0))))).
 Proof. exact @wait_put_pairs. Qed.
 Print Assumptions C02_extracted_requests_are_the_flagged_slices.
 
 Theorem C02_wait_refines_blocking_put :
   forall (sr : list areq -> list areq) (ss : list seg -> list seg) 
-           (st : nbstate) (a : waitargs) (file : disk),
+           (fx : bool) (st : nbstate) (a : waitargs) (file : disk),
          sorter_ok a_start sr ->
          sorter_ok s_off ss ->
          nb_inv st ->
-         ex_err (extract_reqs st (wa_n a) (wa_ids a) (wa_has_stat a) (wa_stat0 a)) = NC_NOERR ->
+         ex_err (extract_reqs fx st (wa_n a) (wa_ids a) (wa_has_stat a) (wa_stat0 a)) = NC_NOERR ->
          NoDup
            (map fst
               (flat_map lead_pairs
                  (flagged
                     (put_lead
-                       (ex_st (extract_reqs st (wa_n a) (wa_ids a) (wa_has_stat a) (wa_stat0 a))))))) ->
-         disk_eq (snd (wait_one sr ss st a file))
+                       (ex_st (extract_reqs fx st (wa_n a) (wa_ids a) (wa_has_stat a) (wa_stat0 a))))))) ->
+         disk_eq (snd (wait_one sr ss fx st a file))
            (fold_left (fun (f : disk) (l : lead) => blocking_put f (st_mem st) l)
               (flagged
-                 (put_lead (ex_st (extract_reqs st (wa_n a) (wa_ids a) (wa_has_stat a) (wa_stat0 a)))))
+                 (put_lead
+                    (ex_st (extract_reqs fx st (wa_n a) (wa_ids a) (wa_has_stat a) (wa_stat0 a)))))
               file).
 Proof. exact @wait_refines_blocking_put. Qed.
 Print Assumptions C02_wait_refines_blocking_put.
 
 Theorem C02_wait_refines_blocking_put_any_order :
   forall (sr : list areq -> list areq) (ss : list seg -> list seg) 
-           (st : nbstate) (a : waitargs) (file : disk) (leads' : list lead),
+           (fx : bool) (st : nbstate) (a : waitargs) (file : disk) (leads' : list lead),
          sorter_ok a_start sr ->
          sorter_ok s_off ss ->
          nb_inv st ->
-         ex_err (extract_reqs st (wa_n a) (wa_ids a) (wa_has_stat a) (wa_stat0 a)) = NC_NOERR ->
+         ex_err (extract_reqs fx st (wa_n a) (wa_ids a) (wa_has_stat a) (wa_stat0 a)) = NC_NOERR ->
          NoDup
            (map fst
               (flat_map lead_pairs
                  (flagged
                     (put_lead
-                       (ex_st (extract_reqs st (wa_n a) (wa_ids a) (wa_has_stat a) (wa_stat0 a))))))) ->
+                       (ex_st (extract_reqs fx st (wa_n a) (wa_ids a) (wa_has_stat a) (wa_stat0 a))))))) ->
          Permutation leads'
            (flagged
-              (put_lead (ex_st (extract_reqs st (wa_n a) (wa_ids a) (wa_has_stat a) (wa_stat0 a))))) ->
-         disk_eq (snd (wait_one sr ss st a file))
+              (put_lead (ex_st (extract_reqs fx st (wa_n a) (wa_ids a) (wa_has_stat a) (wa_stat0 a))))) ->
+         disk_eq (snd (wait_one sr ss fx st a file))
            (fold_left (fun (f : disk) (l : lead) => blocking_put f (st_mem st) l) leads' file).
 Proof. exact @wait_refines_blocking_put_any_order. Qed.
 Print Assumptions C02_wait_refines_blocking_put_any_order.
 
 Theorem C02_one_process_write_is_blocking_puts :
   forall (sr : list areq -> list areq) (ss : list seg -> list seg) 
-           (st : nbstate) (n : Z) (ids : list Z) (hs : bool) (stat0 : list Z) 
-           (f : disk),
+           (fx : bool) (st : nbstate) (n : Z) (ids : list Z) (hs : bool) 
+           (stat0 : list Z) (f : disk),
          sorter_ok a_start sr ->
          sorter_ok s_off ss ->
          nb_inv st ->
-         ex_err (extract_reqs st n ids hs stat0) = NC_NOERR ->
+         ex_err (extract_reqs fx st n ids hs stat0) = NC_NOERR ->
          NoDup
            (map fst
-              (flat_map lead_pairs (flagged (put_lead (ex_st (extract_reqs st n ids hs stat0)))))) ->
+              (flat_map lead_pairs (flagged (put_lead (ex_st (extract_reqs fx st n ids hs stat0)))))) ->
          disk_eq
            (mpi_write f (st_mem st)
-              (aggregate sr ss (put_lead (ex_st (extract_reqs st n ids hs stat0)))
-                 (ex_put (extract_reqs st n ids hs stat0))))
+              (aggregate sr ss (put_lead (ex_st (extract_reqs fx st n ids hs stat0)))
+                 (ex_put (extract_reqs fx st n ids hs stat0))))
            (fold_left (fun (f0 : disk) (l : lead) => blocking_put f0 (st_mem st) l)
-              (flagged (put_lead (ex_st (extract_reqs st n ids hs stat0)))) f).
+              (flagged (put_lead (ex_st (extract_reqs fx st n ids hs stat0)))) f).
 Proof. exact @rank_put_correct. Qed.
 Print Assumptions C02_one_process_write_is_blocking_puts.
 
 (* collective wait of any number of processes, any arguments per process (processes applied in rank order) *)
 Theorem C02_wait_all_refines_blocking_put :
-  forall (sr : list areq -> list areq) (ss : list seg -> list seg)
-           (sa : list (nbstate * waitargs)) (file : disk),
+  forall (sr : list areq -> list areq) (ss : list seg -> list seg) 
+           (fx : bool) (sa : list (nbstate * waitargs)) (file : disk),
          sorter_ok a_start sr ->
          sorter_ok s_off ss ->
          Forall (fun p : nbstate * waitargs => nb_inv (fst p)) sa ->
          Forall
            (fun p : nbstate * waitargs =>
             ex_err
-              (extract_reqs (fst p) (wa_n (snd p)) (wa_ids (snd p)) (wa_has_stat (snd p))
+              (extract_reqs fx (fst p) (wa_n (snd p)) (wa_ids (snd p)) (wa_has_stat (snd p))
                  (wa_stat0 (snd p))) = NC_NOERR) sa ->
          Forall
            (fun p : nbstate * waitargs =>
@@ -376,70 +380,130 @@ Theorem C02_wait_all_refines_blocking_put :
                     (flagged
                        (put_lead
                           (ex_st
-                             (extract_reqs (fst p) (wa_n (snd p)) (wa_ids (snd p))
+                             (extract_reqs fx (fst p) (wa_n (snd p)) (wa_ids (snd p))
                                 (wa_has_stat (snd p)) (wa_stat0 (snd p))))))))) sa ->
-         disk_eq (snd (wait_coll sr ss (map fst sa) (map snd sa) file))
+         disk_eq (snd (wait_coll sr ss fx (map fst sa) (map snd sa) file))
            (fold_left
               (fun (f : disk) (p : nbstate * waitargs) =>
                fold_left (fun (f0 : disk) (l : lead) => blocking_put f0 (st_mem (fst p)) l)
                  (flagged
                     (put_lead
                        (ex_st
-                          (extract_reqs (fst p) (wa_n (snd p)) (wa_ids (snd p)) 
+                          (extract_reqs fx (fst p) (wa_n (snd p)) (wa_ids (snd p))
                              (wa_has_stat (snd p)) (wa_stat0 (snd p)))))) f) sa file).
 Proof. exact @wait_coll_refines_blocking_put. Qed.
 Print Assumptions C02_wait_all_refines_blocking_put.
 
 (* F2 witness: two gets of the same two elements completed by one wait: the second buffer is never filled *)
 Theorem C02_wait_refines_blocking_get_refuted :
-  ~ wait_refines_blocking_get_full.
+  forall fx : bool, ~ wait_refines_blocking_get_full fx.
 Proof. exact @wait_refines_blocking_get_refuted. Qed.
 Print Assumptions C02_wait_refines_blocking_get_refuted.
 
 Theorem C02_wait_refines_blocking_get_partial :
   forall (sr : list areq -> list areq) (ss : list seg -> list seg) 
-           (st : nbstate) (a : waitargs) (file : disk),
+           (fx : bool) (st : nbstate) (a : waitargs) (file : disk),
          sorter_ok a_start sr ->
          sorter_ok s_off ss ->
          nb_inv st ->
-         ex_err (extract_reqs st (wa_n a) (wa_ids a) (wa_has_stat a) (wa_stat0 a)) = NC_NOERR ->
+         ex_err (extract_reqs fx st (wa_n a) (wa_ids a) (wa_has_stat a) (wa_stat0 a)) = NC_NOERR ->
          NoDup
            (map fst
               (flat_map lead_pairs
                  (flagged
                     (get_lead
-                       (ex_st (extract_reqs st (wa_n a) (wa_ids a) (wa_has_stat a) (wa_stat0 a))))))) ->
+                       (ex_st (extract_reqs fx st (wa_n a) (wa_ids a) (wa_has_stat a) (wa_stat0 a))))))) ->
          NoDup
            (map snd
               (flat_map lead_pairs
                  (flagged
                     (get_lead
-                       (ex_st (extract_reqs st (wa_n a) (wa_ids a) (wa_has_stat a) (wa_stat0 a))))))) ->
-         disk_eq (st_mem (wr_st (fst (wait_one sr ss st a file))))
+                       (ex_st (extract_reqs fx st (wa_n a) (wa_ids a) (wa_has_stat a) (wa_stat0 a))))))) ->
+         disk_eq (st_mem (wr_st (fst (wait_one sr ss fx st a file))))
            (fold_left
-              (fun (m : disk) (l : lead) => blocking_get (snd (wait_one sr ss st a file)) m l)
+              (fun (m : disk) (l : lead) => blocking_get (snd (wait_one sr ss fx st a file)) m l)
               (flagged
-                 (get_lead (ex_st (extract_reqs st (wa_n a) (wa_ids a) (wa_has_stat a) (wa_stat0 a)))))
+                 (get_lead
+                    (ex_st (extract_reqs fx st (wa_n a) (wa_ids a) (wa_has_stat a) (wa_stat0 a)))))
               (st_mem st)).
 Proof. exact @wait_refines_blocking_get_partial. Qed.
 Print Assumptions C02_wait_refines_blocking_get_partial.
 
+(* FULL statement for the repaired extract_reqs (fx = true, patches/F3_poison.diff): the status pointer of a completed request is the slot of a position naming it *)
+Theorem C02_status_own :
+  status_own_full true.
+Proof. exact @status_own. Qed.
+Print Assumptions C02_status_own.
+
+Theorem C02_status_own_fixed :
+  forall (st : nbstate) (n : Z) (ids stat0 : list Z),
+         nb_inv st ->
+         (0 <= n)%Z ->
+         n = Zlen ids ->
+         ex_err (extract_reqs true st n ids true stat0) = NC_NOERR ->
+         forall (l' : lead) (i : Z),
+         In l'
+           (put_lead (ex_st (extract_reqs true st n ids true stat0)) ++
+            get_lead (ex_st (extract_reqs true st n ids true stat0))) ->
+         l_to_free l' = true -> l_status l' = Some i -> znth ids i NC_REQ_NULL = l_id l'.
+Proof. exact @status_own_fixed. Qed.
+Print Assumptions C02_status_own_fixed.
+
+Theorem C02_named_iff_completed :
+  forall (st : nbstate) (n : Z) (ids : list Z) (hs : bool) (stat0 : list Z),
+         nb_inv st ->
+         (0 <= n)%Z ->
+         n = Zlen ids ->
+         ex_err (extract_reqs true st n ids hs stat0) = NC_NOERR ->
+         forall l' : lead,
+         In l'
+           (put_lead (ex_st (extract_reqs true st n ids hs stat0)) ++
+            get_lead (ex_st (extract_reqs true st n ids hs stat0))) ->
+         l_to_free l' = true <-> In (l_id l') ids.
+Proof. exact @subset_flags_fixed. Qed.
+Print Assumptions C02_named_iff_completed.
+
+Theorem C02_ids_reset :
+  forall (st : nbstate) (n : Z) (ids : list Z) (hs : bool) (stat0 : list Z),
+         nb_inv st ->
+         (0 <= n)%Z ->
+         n = Zlen ids ->
+         ex_err (extract_reqs true st n ids hs stat0) = NC_NOERR ->
+         forall i : Z,
+         (0 <= i < Zlen ids)%Z ->
+         znth (ex_ids (extract_reqs true st n ids hs stat0)) i 0%Z = NC_REQ_NULL.
+Proof. exact @ids_reset_fixed. Qed.
+Print Assumptions C02_ids_reset.
+
+Theorem C02_statuses_noerr :
+  forall (st : nbstate) (n : Z) (ids stat0 : list Z),
+         nb_inv st ->
+         (0 <= n)%Z ->
+         n = Zlen ids ->
+         ex_err (extract_reqs true st n ids true stat0) = NC_NOERR ->
+         Zlen stat0 = Zlen ids ->
+         forall i : Z,
+         (0 <= i < Zlen ids)%Z ->
+         znth (ex_stat (extract_reqs true st n ids true stat0)) i 0%Z = NC_NOERR.
+Proof. exact @statuses_fixed. Qed.
+Print Assumptions C02_statuses_noerr.
+
 (* F3 witness: two pending puts (ids 0, 2) named as [2; 0]: statuses[0] is bound to the request with id 0 *)
-Theorem C02_status_own_refuted :
-  ~ status_own_full.
-Proof. exact @status_own_refuted. Qed.
-Print Assumptions C02_status_own_refuted.
+Theorem C02_status_own_old_refuted :
+  ~ status_own_full false.
+Proof. exact @status_own_old_refuted. Qed.
+Print Assumptions C02_status_own_old_refuted.
 
 Theorem C02_status_own_partial :
   forall (st : nbstate) (n : Z) (ids stat0 : list Z),
          nb_inv st ->
          no_shortcut st n ->
          (0 <= n)%Z ->
-         ex_err (extract_reqs st n ids true stat0) = NC_NOERR ->
+         ex_err (extract_reqs false st n ids true stat0) = NC_NOERR ->
          forall (l' : lead) (i : Z),
          In l'
-           (put_lead (ex_st (extract_reqs st n ids true stat0)) ++
-            get_lead (ex_st (extract_reqs st n ids true stat0))) ->
+           (put_lead (ex_st (extract_reqs false st n ids true stat0)) ++
+            get_lead (ex_st (extract_reqs false st n ids true stat0))) ->
          l_to_free l' = true -> l_status l' = Some i -> znth ids i NC_REQ_NULL = l_id l'.
 Proof. exact @status_own_partial. Qed.
 Print Assumptions C02_status_own_partial.
@@ -449,11 +513,11 @@ Theorem C02_named_iff_completed_partial :
          nb_inv st ->
          no_shortcut st n ->
          (0 <= n)%Z ->
-         ex_err (extract_reqs st n ids true stat0) = NC_NOERR ->
+         ex_err (extract_reqs false st n ids true stat0) = NC_NOERR ->
          forall l' : lead,
          In l'
-           (put_lead (ex_st (extract_reqs st n ids true stat0)) ++
-            get_lead (ex_st (extract_reqs st n ids true stat0))) ->
+           (put_lead (ex_st (extract_reqs false st n ids true stat0)) ++
+            get_lead (ex_st (extract_reqs false st n ids true stat0))) ->
          l_to_free l' = true <-> In (l_id l') ids.
 Proof. exact @subset_flags. Qed.
 Print Assumptions C02_named_iff_completed_partial.
@@ -463,10 +527,10 @@ Theorem C02_ids_reset_partial :
          nb_inv st ->
          no_shortcut st n ->
          (0 <= n)%Z ->
-         ex_err (extract_reqs st n ids true stat0) = NC_NOERR ->
+         ex_err (extract_reqs false st n ids true stat0) = NC_NOERR ->
          forall i : Z,
          (0 <= i < Zlen ids)%Z ->
-         znth (ex_ids (extract_reqs st n ids true stat0)) i 0%Z = NC_REQ_NULL.
+         znth (ex_ids (extract_reqs false st n ids true stat0)) i 0%Z = NC_REQ_NULL.
 Proof. exact @subset_ids_reset. Qed.
 Print Assumptions C02_ids_reset_partial.
 
@@ -475,56 +539,81 @@ Theorem C02_statuses_noerr_partial :
          nb_inv st ->
          no_shortcut st n ->
          (0 <= n)%Z ->
-         ex_err (extract_reqs st n ids true stat0) = NC_NOERR ->
+         ex_err (extract_reqs false st n ids true stat0) = NC_NOERR ->
          forall i : Z,
          (0 <= i < Zlen ids)%Z ->
-         Zlen stat0 = Zlen ids -> znth (ex_stat (extract_reqs st n ids true stat0)) i 0%Z = NC_NOERR.
+         Zlen stat0 = Zlen ids ->
+         znth (ex_stat (extract_reqs false st n ids true stat0)) i 0%Z = NC_NOERR.
 Proof. exact @subset_statuses. Qed.
 Print Assumptions C02_statuses_noerr_partial.
 
 Theorem C02_all_forms_complete_the_kind :
-  forall (st : nbstate) (n : Z) (ids : list Z) (hs : bool) (stat0 : list Z),
+  forall (fx : bool) (st : nbstate) (n : Z) (ids : list Z) (hs : bool) (stat0 : list Z),
          nb_inv st ->
          (n < 0)%Z ->
-         ex_err (extract_reqs st n ids hs stat0) = NC_NOERR /\
+         ex_err (extract_reqs fx st n ids hs stat0) = NC_NOERR /\
          (forall l' : lead,
-          In l' (put_lead (ex_st (extract_reqs st n ids hs stat0))) ->
+          In l' (put_lead (ex_st (extract_reqs fx st n ids hs stat0))) ->
           l_to_free l' = true <-> n = NC_PUT_REQ_ALL \/ n = NC_REQ_ALL) /\
          (forall l' : lead,
-          In l' (get_lead (ex_st (extract_reqs st n ids hs stat0))) ->
+          In l' (get_lead (ex_st (extract_reqs fx st n ids hs stat0))) ->
           l_to_free l' = true <-> n = NC_GET_REQ_ALL \/ n = NC_REQ_ALL).
 Proof. exact @extract_all_flags. Qed.
 Print Assumptions C02_all_forms_complete_the_kind.
 
-(* F3 witness: two pending puts, wait(2, [NC_REQ_NULL; 0]) completes the request with id 2 as well *)
-Theorem C02_wait_subset_frame_refuted :
-  ~ wait_subset_frame_full.
-Proof. exact @wait_subset_frame_refuted. Qed.
-Print Assumptions C02_wait_subset_frame_refuted.
+(* FULL statement for the repaired variant: a request whose id is not passed stays pending *)
+Theorem C02_wait_subset_frame :
+  wait_subset_frame_full true.
+Proof. exact @wait_subset_frame. Qed.
+Print Assumptions C02_wait_subset_frame.
 
-Theorem C02_wait_subset_frame_partial :
+Theorem C02_wait_subset_frame_fixed :
   forall (sr : list areq -> list areq) (ss : list seg -> list seg) 
            (st : nbstate) (a : waitargs) (file : disk),
          nb_inv st ->
-         wr_rc (fst (wait_one sr ss st a file)) = NC_NOERR ->
+         (0 <= wa_n a)%Z ->
+         wa_n a = Zlen (wa_ids a) ->
+         wr_rc (fst (wait_one sr ss true st a file)) = NC_NOERR ->
+         forall l : lead,
+         In l (put_lead st ++ get_lead st) ->
+         ~ In (l_id l) (wa_ids a) ->
+         exists l' : lead,
+           In l'
+             (put_lead (wr_st (fst (wait_one sr ss true st a file))) ++
+              get_lead (wr_st (fst (wait_one sr ss true st a file)))) /\
+           lead_same l l' /\ l_to_free l' = false.
+Proof. exact @wait_subset_frame_fixed. Qed.
+Print Assumptions C02_wait_subset_frame_fixed.
+
+(* F3 witness: two pending puts, wait(2, [NC_REQ_NULL; 0]) completes the request with id 2 as well *)
+Theorem C02_wait_subset_frame_old_refuted :
+  ~ wait_subset_frame_full false.
+Proof. exact @wait_subset_frame_old_refuted. Qed.
+Print Assumptions C02_wait_subset_frame_old_refuted.
+
+Theorem C02_wait_subset_frame_partial :
+  forall (sr : list areq -> list areq) (ss : list seg -> list seg) 
+           (fx : bool) (st : nbstate) (a : waitargs) (file : disk),
+         nb_inv st ->
+         wr_rc (fst (wait_one sr ss fx st a file)) = NC_NOERR ->
          forall l : lead,
          In l (put_lead st ++ get_lead st) ->
          (forall l1 : lead,
           In l1
-            (put_lead (ex_st (extract_reqs st (wa_n a) (wa_ids a) (wa_has_stat a) (wa_stat0 a))) ++
-             get_lead (ex_st (extract_reqs st (wa_n a) (wa_ids a) (wa_has_stat a) (wa_stat0 a)))) ->
+            (put_lead (ex_st (extract_reqs fx st (wa_n a) (wa_ids a) (wa_has_stat a) (wa_stat0 a))) ++
+             get_lead (ex_st (extract_reqs fx st (wa_n a) (wa_ids a) (wa_has_stat a) (wa_stat0 a)))) ->
           l_id l1 = l_id l -> l_to_free l1 = false) ->
          exists l' : lead,
            In l'
-             (put_lead (wr_st (fst (wait_one sr ss st a file))) ++
-              get_lead (wr_st (fst (wait_one sr ss st a file)))) /\
+             (put_lead (wr_st (fst (wait_one sr ss fx st a file))) ++
+              get_lead (wr_st (fst (wait_one sr ss fx st a file)))) /\
            lead_same l l' /\
            l_to_free l' = false /\
            map (fun q : req => (r_start q, r_count q, r_nelems q, r_xaddr q))
              (lead_reqs
                 (if Z.even (l_id l)
-                 then put_reqs (wr_st (fst (wait_one sr ss st a file)))
-                 else get_reqs (wr_st (fst (wait_one sr ss st a file)))) l') =
+                 then put_reqs (wr_st (fst (wait_one sr ss fx st a file)))
+                 else get_reqs (wr_st (fst (wait_one sr ss fx st a file)))) l') =
            map (fun q : req => (r_start q, r_count q, r_nelems q, r_xaddr q))
              (lead_reqs (if Z.even (l_id l) then put_reqs st else get_reqs st) l).
 Proof. exact @wait_subset_frame_partial. Qed.
@@ -532,63 +621,65 @@ Print Assumptions C02_wait_subset_frame_partial.
 
 Theorem C02_wait_nreqs :
   forall (sr : list areq -> list areq) (ss : list seg -> list seg) 
-           (st : nbstate) (a : waitargs) (file : disk),
+           (fx : bool) (st : nbstate) (a : waitargs) (file : disk),
          nb_inv st ->
-         wr_rc (fst (wait_one sr ss st a file)) = NC_NOERR ->
-         nreqs (wr_st (fst (wait_one sr ss st a file))) =
+         wr_rc (fst (wait_one sr ss fx st a file)) = NC_NOERR ->
+         nreqs (wr_st (fst (wait_one sr ss fx st a file))) =
          (nreqs st -
           Zlen
             (flagged
-               (put_lead (ex_st (extract_reqs st (wa_n a) (wa_ids a) (wa_has_stat a) (wa_stat0 a))))) -
+               (put_lead
+                  (ex_st (extract_reqs fx st (wa_n a) (wa_ids a) (wa_has_stat a) (wa_stat0 a))))) -
           Zlen
             (flagged
-               (get_lead (ex_st (extract_reqs st (wa_n a) (wa_ids a) (wa_has_stat a) (wa_stat0 a))))))%Z.
+               (get_lead
+                  (ex_st (extract_reqs fx st (wa_n a) (wa_ids a) (wa_has_stat a) (wa_stat0 a))))))%Z.
 Proof. exact @wait_nreqs. Qed.
 Print Assumptions C02_wait_nreqs.
 
 Theorem C02_wait_completed_gone :
   forall (sr : list areq -> list areq) (ss : list seg -> list seg) 
-           (st : nbstate) (a : waitargs) (file : disk),
+           (fx : bool) (st : nbstate) (a : waitargs) (file : disk),
          nb_inv st ->
-         wr_rc (fst (wait_one sr ss st a file)) = NC_NOERR ->
+         wr_rc (fst (wait_one sr ss fx st a file)) = NC_NOERR ->
          forall l2 : lead,
          In l2
            (flagged
-              (put_lead (ex_st (extract_reqs st (wa_n a) (wa_ids a) (wa_has_stat a) (wa_stat0 a)))) ++
+              (put_lead (ex_st (extract_reqs fx st (wa_n a) (wa_ids a) (wa_has_stat a) (wa_stat0 a)))) ++
             flagged
-              (get_lead (ex_st (extract_reqs st (wa_n a) (wa_ids a) (wa_has_stat a) (wa_stat0 a))))) ->
+              (get_lead (ex_st (extract_reqs fx st (wa_n a) (wa_ids a) (wa_has_stat a) (wa_stat0 a))))) ->
          ~
          In (l_id l2)
            (map l_id
-              (put_lead (wr_st (fst (wait_one sr ss st a file))) ++
-               get_lead (wr_st (fst (wait_one sr ss st a file))))).
+              (put_lead (wr_st (fst (wait_one sr ss fx st a file))) ++
+               get_lead (wr_st (fst (wait_one sr ss fx st a file))))).
 Proof. exact @wait_completed_gone. Qed.
 Print Assumptions C02_wait_completed_gone.
 
 Theorem C02_wait_events_put :
   forall (sr : list areq -> list areq) (ss : list seg -> list seg) 
-           (st : nbstate) (a : waitargs) (file : disk),
+           (fx : bool) (st : nbstate) (a : waitargs) (file : disk),
          nb_inv st ->
-         wr_rc (fst (wait_one sr ss st a file)) = NC_NOERR ->
+         wr_rc (fst (wait_one sr ss fx st a file)) = NC_NOERR ->
          forall l' : lead,
          In l'
            (flagged
-              (put_lead (ex_st (extract_reqs st (wa_n a) (wa_ids a) (wa_has_stat a) (wa_stat0 a))))) ->
-         In (EvPutDone (l_tag l')) (wr_ev (fst (wait_one sr ss st a file))).
+              (put_lead (ex_st (extract_reqs fx st (wa_n a) (wa_ids a) (wa_has_stat a) (wa_stat0 a))))) ->
+         In (EvPutDone (l_tag l')) (wr_ev (fst (wait_one sr ss fx st a file))).
 Proof. exact @wait_events_put. Qed.
 Print Assumptions C02_wait_events_put.
 
 Theorem C02_wait_events_get :
   forall (sr : list areq -> list areq) (ss : list seg -> list seg) 
-           (st : nbstate) (a : waitargs) (file : disk),
+           (fx : bool) (st : nbstate) (a : waitargs) (file : disk),
          nb_inv st ->
-         wr_rc (fst (wait_one sr ss st a file)) = NC_NOERR ->
+         wr_rc (fst (wait_one sr ss fx st a file)) = NC_NOERR ->
          forall l' : lead,
          In l'
            (flagged
-              (get_lead (ex_st (extract_reqs st (wa_n a) (wa_ids a) (wa_has_stat a) (wa_stat0 a))))) ->
+              (get_lead (ex_st (extract_reqs fx st (wa_n a) (wa_ids a) (wa_has_stat a) (wa_stat0 a))))) ->
          In (EvGetDone (l_tag l') (l_xaddr l') (l_nelems l' * g_xsz (l_geom l')) (l_status l'))
-           (wr_ev (fst (wait_one sr ss st a file))).
+           (wr_ev (fst (wait_one sr ss fx st a file))).
 Proof. exact @wait_events_get. Qed.
 Print Assumptions C02_wait_events_get.
 
@@ -682,16 +773,16 @@ Print Assumptions C02_post_id.
 (* FULL statement (holds since fix 186ba92c in /repo): the number of records covers every completed record put *)
 Theorem C02_numrecs_after_wait :
   forall (sr : list areq -> list areq) (ss : list seg -> list seg) 
-           (st : nbstate) (a : waitargs) (file : disk),
+           (fx : bool) (st : nbstate) (a : waitargs) (file : disk),
          nb_inv st ->
-         wr_rc (fst (wait_one sr ss st a file)) = NC_NOERR ->
+         wr_rc (fst (wait_one sr ss fx st a file)) = NC_NOERR ->
          forall l : lead,
          In l
            (flagged
-              (put_lead (ex_st (extract_reqs st (wa_n a) (wa_ids a) (wa_has_stat a) (wa_stat0 a))))) ->
+              (put_lead (ex_st (extract_reqs fx st (wa_n a) (wa_ids a) (wa_has_stat a) (wa_stat0 a))))) ->
          g_isrec (l_geom l) = true ->
-         (l_max_rec l <= st_numrecs (wr_st (fst (wait_one sr ss st a file))))%Z /\
-         (st_numrecs st <= st_numrecs (wr_st (fst (wait_one sr ss st a file))))%Z.
+         (l_max_rec l <= st_numrecs (wr_st (fst (wait_one sr ss fx st a file))))%Z /\
+         (st_numrecs st <= st_numrecs (wr_st (fst (wait_one sr ss fx st a file))))%Z.
 Proof. exact @numrecs_after_wait. Qed.
 Print Assumptions C02_numrecs_after_wait.
 
@@ -706,12 +797,32 @@ Print Assumptions C02_newnumrecs_covers_flagged.
 
 (* the loop bound before the fix (first num_w_lead_reqs queue entries) is refuted: iput fixed variable, iput record 5, wait naming the second *)
 Theorem C02_newnumrecs_old_loop_refuted :
-  ~ newnumrecs_old_covers_flagged_full.
+  ~ newnumrecs_old_covers_flagged_full false.
 Proof. exact @newnumrecs_old_refuted. Qed.
 Print Assumptions C02_newnumrecs_old_loop_refuted.
 
+(* FULL statement for the repaired variant: a wait that returns an error writes, delivers and marks nothing *)
+Theorem C02_failed_wait_no_effect :
+  failed_wait_no_effect_full true.
+Proof. exact @failed_wait_no_effect. Qed.
+Print Assumptions C02_failed_wait_no_effect.
+
+Theorem C02_queue_inv_failed_wait :
+  forall (sr : list areq -> list areq) (ss : list seg -> list seg) 
+           (st : nbstate) (a : waitargs) (file : disk),
+         nb_inv_full st -> nb_inv_full (wr_st (fst (wait_one sr ss true st a file))).
+Proof. exact @wait_one_preserves_inv_fixed. Qed.
+Print Assumptions C02_queue_inv_failed_wait.
+
+Theorem C02_queue_inv_all_histories_fixed :
+  forall (sr : list areq -> list areq) (ss : list seg -> list seg) 
+           (ops : list nbop) (sf : nbstate * disk),
+         nb_inv_full (fst sf) -> Forall nbop_ok ops -> nb_inv_full (fst (nb_run sr ss true sf ops)).
+Proof. exact @nb_run_inv_fixed. Qed.
+Print Assumptions C02_queue_inv_all_histories_fixed.
+
 (* witness: wait(2, [0; 0]) with two puts and a get pending returns NC_EINVAL_REQUEST and leaves request 0 flagged for ever *)
-Theorem C02_failed_wait_no_effect_refuted :
-  ~ failed_wait_no_effect_full.
-Proof. exact @failed_wait_no_effect_refuted. Qed.
-Print Assumptions C02_failed_wait_no_effect_refuted.
+Theorem C02_failed_wait_no_effect_old_refuted :
+  ~ failed_wait_no_effect_full false.
+Proof. exact @failed_wait_no_effect_old_refuted. Qed.
+Print Assumptions C02_failed_wait_no_effect_old_refuted.
